@@ -2,12 +2,11 @@
    The byte-level model (OutcomeCodec.v: protobuf wire format of LLOOutcomeProtoV0/V1) is compared with the Go
    codecs on every run (bytes for Encode, structure for Decode).  Proved here: the wire layer and every stream
    value round-trip, the encoding is canonical, decoding is total, version 0 never stores a wrapped value.
-   PARTIAL: the composed statement `decode (encode o) = Ok (norm o)` for whole outcomes is established by the
-   correspondence check (predicate evaluated on the Go results), not yet by a Coq theorem; the theorems below are
-   the lemmas it decomposes into. *)
+   The composed statement for whole outcomes (C10_decode_encode: any number of channels, streams, aggregates) is
+   proved in proofs/OutcomeRoundTrip.v from the wire-level lemmas below. *)
 From stdpp Require Import gmap.
 From DS Require Import Base Decimal StreamValue Wire Sort Aggregators Outcome OutcomeCodec.
-From DS Require Import WireProofs StreamValueProofs OutcomeCodecProofs.
+From DS Require Import WireProofs StreamValueProofs OutcomeCodecProofs OutcomeRoundTrip.
 From DS Require CasesOutCodec.
 Open Scope Z_scope.
 
@@ -33,6 +32,39 @@ Theorem C10_stream_value_roundtrip : forall v,
   sval_ok v -> sval_small v -> (sval_depth v <= 2)%nat -> sval_unmarshal (sv_type v) (sval_marshal v) = Ok v.
 Proof. exact sval_roundtrip. Qed.
 Print Assumptions C10_stream_value_roundtrip.
+
+(* ---- the composed statement ----
+   outcome_wf: the fields are in the ranges of their Go types (uint32 ids/formats/aggregators, uint64 times,
+   int32 decimal scales, timestamped values nested at most twice — deeper nesting is refused by the decoder since
+   the D7 repair) and the stage string is one of the three constants or any other string (not re-spelling one);
+   small bs: the encoding is shorter than 2^64 bytes.
+   Outcome.codec_commit is what the plugin's step function (Outcome.outcome_step) uses as "state after the codec":
+   version 1 returns the outcome itself, version 0 floors every validity start to whole seconds. *)
+Theorem C10_decode_encode : forall pver o bs,
+  outcome_wf o -> encode_outcome pver o = Ok bs -> small bs -> decode_outcome pver bs = codec_commit pver o.
+Proof. exact decode_encode. Qed.
+Print Assumptions C10_decode_encode.
+
+(* spelled out field by field *)
+Theorem C10_fields_preserved : forall pver o bs o',
+  outcome_wf o -> encode_outcome pver o = Ok bs -> small bs -> decode_outcome pver bs = Ok o' ->
+  o_stage o' = o_stage o /\ o_ts o' = o_ts o /\ o_defs o' = o_defs o /\ o_aggs o' = o_aggs o /\
+  (forall c, o_va o' !! c = (if pver =? 0 then (fun v => v / ns_per_s * ns_per_s) else (fun v => v)) <$> (o_va o !! c)).
+Proof.
+  intros pver o bs o' Hwf Henc Hsm Hdec. rewrite (decode_encode pver o bs Hwf Henc Hsm) in Hdec.
+  unfold codec_commit in Hdec. destruct (pver =? 0).
+  - destruct (max_int64 <? o_ts o); [discriminate|].
+    destruct (bool_decide (map_Forall (fun _ v => v / ns_per_s <= max_uint32) (o_va o))); [|discriminate].
+    inversion Hdec; subst; cbn. repeat split; try reflexivity. intros c. rewrite lookup_fmap. reflexivity.
+  - inversion Hdec; subst. repeat split; try reflexivity. intros c. destruct (o_va o' !! c); reflexivity.
+Qed.
+Print Assumptions C10_fields_preserved.
+
+(* encode-after-decode reproduces the bytes *)
+Theorem C10_reencode_stable : forall pver o bs o',
+  outcome_wf o -> small bs -> encode_outcome pver o = Ok bs -> decode_outcome pver bs = Ok o' -> encode_outcome pver o' = Ok bs.
+Proof. exact reencode_stable. Qed.
+Print Assumptions C10_reencode_stable.
 
 (* canonical: each flattened slice is sorted by pairwise distinct ids, so the order in which the Go map was built
    or iterated cannot influence the bytes *)
@@ -70,3 +102,15 @@ Example C10_nv :
   (match encode_outcome 0 C10_nv_outcome with Ok bs => option_map (fun o => o_va o !! 7) (match decode_outcome 0 bs with Ok o => Some o | _ => None end) | _ => None end)
     = Some (Some 1699999999000000000).
 Proof. vm_compute. split; reflexivity. Qed.
+Example C10_nv_wf : outcome_wf C10_nv_outcome /\
+  (match encode_outcome 1 C10_nv_outcome with Ok bs => Z.of_nat (length bs) | _ => 0 end) = 136.
+Proof.
+  split; [|vm_compute; reflexivity].
+  unfold outcome_wf, C10_nv_outcome; cbn [o_stage o_ts o_defs o_va o_aggs].
+  split; [reflexivity|]. split; [unfold u64_ok; lia|].
+  split. { apply map_Forall_singleton. split; [unfold u32_ok; lia|]. split; [unfold u32_ok; simpl; lia|].
+           repeat constructor; unfold u32_ok; simpl; lia. }
+  split. { apply map_Forall_singleton. unfold u32_ok, u64_ok. lia. }
+  apply map_Forall_insert_2; [|apply map_Forall_insert_2; [|apply map_Forall_singleton]];
+    unfold agg_wf, sval_wf, u32_ok; cbn; unfold StreamValueProofs.exp_ok; cbn; lia.
+Qed.
